@@ -625,10 +625,14 @@ pub fn check(ctx: &CheckCtx) -> Option<Found> {
         return Some(f);
     }
     let t = ctx.tier;
-    if let Some(f) = ctx.search("sched", case_strategy(), t.pick(20_000, 300_000), 6, None, run_case) {
-        return Some(f);
+    // (the ship-profile child leaves the schedule searches to its parent: the yield hooks behave the same in both builds)
+    let child = crate::ship::is_child();
+    if !child {
+        if let Some(f) = ctx.search("sched", case_strategy(), t.pick(20_000, 300_000), 6, None, run_case) {
+            return Some(f);
+        }
     }
-    if let Some(f) = ctx.search("free", free_strategy(), t.pick(2_000, 120_000), 4, None, run_free) {
+    if let Some(f) = ctx.search("free", free_strategy(), if child { 300 } else { t.pick(2_000, 120_000) }, 4, None, run_free) {
         return Some(f);
     }
     // bounded-exhaustive: every schedule of tiny configurations
@@ -642,6 +646,9 @@ pub fn check(ctx: &CheckCtx) -> Option<Found> {
         ],
     };
     for (actors, keep, nd) in tiny {
+        if child {
+            break;
+        }
         if let Some(f) = dfs(ctx, actors, keep, nd, t.pick(20_000, 400_000)) {
             return Some(f);
         }
